@@ -282,4 +282,83 @@ theorem hasDuplicates_strs (ss : List String) :
   rw [hasDuplicates_eq_false_iff, List.pairwise_map]
   simp [str_pyEq, List.Nodup]
 
+/-! ### mask and cover of a flag class -/
+
+theorem foldl_or_filter (p : FlagEntry → Bool) (es : List FlagEntry) (init : Nat) :
+    es.foldl (fun acc e => if p e then acc ||| e.bits else acc) init =
+      init ||| orAll ((es.filter p).map (·.bits)) := by
+  induction es generalizing init with
+  | nil => simp
+  | cons e t ih =>
+    simp only [List.foldl_cons, ih, List.filter_cons]
+    by_cases hp : p e = true
+    · simp [hp, Nat.or_assoc]
+    · simp [hp]
+
+theorem FlagClass.mask_eq (c : FlagClass) : c.mask = orAll (c.entries.map (·.bits)) := by
+  have := foldl_or_filter (fun _ => true) c.entries 0
+  have hf : c.entries.filter (fun _ => true) = c.entries := List.filter_eq_self.2 (by simp)
+  rw [hf] at this
+  simpa [FlagClass.mask] using this
+
+theorem FlagClass.cover_eq (c : FlagClass) (v : Nat) :
+    c.cover v = orAll ((c.entries.filter (fun e => flagIn e.bits v)).map (·.bits)) := by
+  have := foldl_or_filter (fun e => flagIn e.bits v) c.entries 0
+  simpa [FlagClass.cover] using this
+
+theorem FlagClass.mem_membersValues {c : FlagClass} {s : FlagCase} (h : s ∈ c.membersValues) :
+    ∃ e ∈ c.entries, e.bits = s.bits := by
+  unfold FlagClass.membersValues at h
+  rw [List.mem_map] at h
+  obtain ⟨e, he, rfl⟩ := h
+  exact ⟨e, he, rfl⟩
+
+theorem FlagClass.cover_flagIn (c : FlagClass) (v : Nat) : flagIn (c.cover v) v = true := by
+  rw [FlagClass.cover_eq]
+  apply orAll_flagIn
+  intro x hx
+  rw [List.mem_map] at hx
+  obtain ⟨e, he, rfl⟩ := hx
+  exact (List.mem_filter.1 he).2
+
+theorem FlagClass.flagIn_cover {c : FlagClass} {e : FlagEntry} {v : Nat} (he : e ∈ c.entries)
+    (h : flagIn e.bits v = true) : flagIn e.bits (c.cover v) = true := by
+  rw [FlagClass.cover_eq]
+  exact flagIn_orAll (List.mem_map.2 ⟨e, List.mem_filter.2 ⟨he, h⟩, rfl⟩)
+
+/-- a union of members is covered by the members it contains -/
+theorem FlagClass.cover_of_union {c : FlagClass} {S : List FlagCase}
+    (hS : ∀ s ∈ S, s ∈ c.membersValues) :
+    c.cover (orAll (S.map (·.bits))) = orAll (S.map (·.bits)) := by
+  apply flagIn_antisymm (c.cover_flagIn _)
+  apply orAll_flagIn
+  intro x hx
+  rw [List.mem_map] at hx
+  obtain ⟨s, hs, rfl⟩ := hx
+  obtain ⟨e, he, hbits⟩ := FlagClass.mem_membersValues (hS s hs)
+  rw [← hbits]
+  apply FlagClass.flagIn_cover he
+  rw [hbits]
+  exact flagIn_orAll (List.mem_map.2 ⟨s, hs, rfl⟩)
+
+theorem FlagClass.union_flagIn_mask {c : FlagClass} {S : List FlagCase}
+    (hS : ∀ s ∈ S, s ∈ c.membersValues) : flagIn (orAll (S.map (·.bits))) c.mask = true := by
+  apply orAll_flagIn
+  intro x hx
+  rw [List.mem_map] at hx
+  obtain ⟨s, hs, rfl⟩ := hx
+  obtain ⟨e, he, hbits⟩ := FlagClass.mem_membersValues (hS s hs)
+  rw [← hbits, FlagClass.mask_eq]
+  exact flagIn_orAll (List.mem_map.2 ⟨e, he, rfl⟩)
+
+theorem FlagClass.nonCompound_sub {c : FlagClass} {s : FlagCase} (h : s ∈ c.nonCompound) :
+    s ∈ c.membersValues := (List.mem_filter.1 h).1
+
+theorem FlagClass.getCases_sub {c : FlagClass} {o : ListOpts} {s : FlagCase} (h : s ∈ c.getCases o) :
+    s ∈ c.membersValues := by
+  unfold FlagClass.getCases at h
+  split at h
+  · exact h
+  · exact FlagClass.nonCompound_sub h
+
 end Adaptix.Enum
